@@ -154,4 +154,19 @@ theorem readStr_jstr (s rest : List Char) :
 theorem unescape_escape (s : List Char) : unescape (escape s) = some s := by
   simp [unescape, readStr_escape]
 
+/-! ### pieces: escaping piece by piece is escaping the whole text -/
+
+theorem escape_append (a b : List Char) : escape (a ++ b) = escape a ++ escape b := by
+  induction a with
+  | nil => rfl
+  | cons c cs ih => simp [escape, ih]
+
+theorem escape_flatten (ps : List (List Char)) : ps.flatMap escape = escape ps.flatten := by
+  induction ps with
+  | nil => rfl
+  | cons p ps ih => simp [List.flatMap_cons, List.flatten_cons, escape_append, ih]
+
+theorem jstrPieces_eq (ps : List (List Char)) : jstrPieces ps = jstr ps.flatten := by
+  simp [jstrPieces, jstr, escape_flatten]
+
 end Log4rs.Json
